@@ -19,6 +19,8 @@ structure St where
   g : Graph := ⟨[], []⟩
   next : Nat := 0
   names : List String := []
+  relRun : List (RelId × Nat) := []   -- commit number of the newest run that holds a copy of the identity
+  commitNo : Nat := 0
   committed : Bool := false       -- `commit` seen: the database exists (before that the runner answers bad-op)
   specG : Graph := ⟨[], []⟩        -- reference result of the last statement
   trig : List String := []         -- triggers of the last statement (repeated on its dump line)
@@ -52,6 +54,31 @@ def stmtOf : SExp → Option Stmt
   | .list [.atom "stmt", .list (.atom "reads" :: rs), .list (.atom "updates" :: us)] => do
     return ⟨← rs.mapM clauseOf, ← us.mapM uclauseOf⟩
   | _ => none
+
+/-! ### neighbour enumeration order of the storage engine (read_path_iters.rs `NeighborsIter`, memtable.rs
+    `freeze_into_run`): L0 runs newest first (`publish_run` pushes in front), inside a run the edges of a node sorted
+    by `EdgeKey` = (src, rel type id, dst).  The model enumerates `g.rels` in list order, so the driver keeps that
+    list in the engine's order: key (age of the newest run holding the identity, src, type id, dst).  (Copies of one
+    identity that live in different runs are enumerated apart by the engine; the model keeps them together at the
+    newest run — a residual approximation, only observable when such copies drive conflicting writes.) -/
+
+def createdRels (ops : List Update.TxOp) : List RelId :=
+  ops.filterMap fun | .createEdge r => some r | _ => none
+
+def bumpRuns (relRun : List (RelId × Nat)) (run : Nat) (rs : List RelId) : List (RelId × Nat) :=
+  rs.foldl (fun m r => (m.filter (·.1 != r)) ++ [(r, run)]) relRun
+
+def lexLe : List Nat → List Nat → Bool
+  | a :: as, b :: bs => a < b || (a == b && lexLe as bs)
+  | _, _ => true
+
+def idxOfName (names : List String) (t : String) : Nat :=
+  match names.findIdx? (· == t) with | some i => i | none => names.length
+
+def sortRels (names : List String) (relRun : List (RelId × Nat)) (commitNo : Nat) (rels : List RelRec) : List RelRec :=
+  let key (e : RelRec) : List Nat :=
+    [commitNo - ((relRun.lookup e.id).getD 0), e.id.src, idxOfName names e.id.typ, e.id.dst]
+  rels.mergeSort fun a b => lexLe (key a) (key b)
 
 def stmtsOf : SExp → Option (List Stmt)
   | .list (.atom "stmts" :: ss) => ss.mapM stmtOf
@@ -104,9 +131,13 @@ def stepUpdate (st : St) (ps : String) (sx : List String) : St × String × Stri
       let (specOut, specG) := match Spec.apply small params (Update.live st.g) st.next stmt with
         | .ok (g', _, c) => ("ok " ++ toString c.total, g')
         | .error e => (errLine e, Update.live st.g)
-      match Update.step small params st.g st.next st.names stmt with
-      | .ok (g', next', count, names') =>
-        ({ st with g := g', next := next', names := names', specG, trig },
+      match Update.runStmt small params st.g st.next st.names stmt with
+      | .ok (ops, created, count, names') =>
+        let commitNo := st.commitNo + 1
+        let relRun := bumpRuns st.relRun commitNo (createdRels ops)
+        let g0 := Update.applyOps st.g ops
+        let g' : Graph := { g0 with rels := sortRels names' relRun commitNo g0.rels }
+        ({ st with g := g', next := st.next + created, names := names', specG, trig, relRun, commitNo },
           "ok " ++ toString count, specOut, " ".intercalate trig)
       | .error e => ({ st with specG, trig }, errLine e, specOut, " ".intercalate trig)
     | _, _ => (st, "bad-op", "-", "")
@@ -132,9 +163,9 @@ def step (st : St) (ws : List String) : St × String × String × String :=
       ({ st with committed := false }, "err", "-", "")
     else
     let ids := st.nodes.map fun n => toString n.id
-    let g : Graph := ⟨st.nodes, st.rels⟩
     let names := (st.nodes.flatMap (·.labels) ++ st.rels.map (·.id.typ)).eraseDups
-    ({ st with g, specG := g, next := st.nodes.length, names, committed := true },
+    let g : Graph := ⟨st.nodes, sortRels names [] 0 st.rels⟩
+    ({ st with g, specG := g, next := st.nodes.length, names, committed := true, relRun := [], commitNo := 0 },
       "ok " ++ (if ids.isEmpty then "-" else ",".intercalate ids), "-", "")
   | ["dump"] => if st.committed then (st, dump st.g, dump st.specG, " ".intercalate st.trig) else (st, "bad-op", "-", "")
   | "updatet" :: ps :: _paths :: _texts :: sx =>
@@ -147,10 +178,14 @@ def step (st : St) (ws : List String) : St × String × String × String :=
       let (specOut, specG) := match Spec.applyTxn small params (Update.live st.g) st.next stmts with
         | .ok (g', _, cs) => (showCounts cs, g')
         | .error e => (errLine e, Update.live st.g)
-      match Update.stepTxn small params st.g st.next st.names stmts with
-      | .ok (g', next', counts, names') =>
-        ({ st with g := g', next := next', names := names', specG, trig }, showCounts counts, specOut,
-          " ".intercalate trig)
+      match Update.runTxn small params st.g st.next st.names stmts with
+      | .ok (ops, created, counts, names') =>
+        let commitNo := st.commitNo + 1
+        let relRun := bumpRuns st.relRun commitNo (createdRels ops)
+        let g0 := Update.applyOps st.g ops
+        let g' : Graph := { g0 with rels := sortRels names' relRun commitNo g0.rels }
+        ({ st with g := g', next := st.next + created, names := names', specG, trig, relRun, commitNo },
+          showCounts counts, specOut, " ".intercalate trig)
       | .error e => ({ st with specG, trig }, errLine e, specOut, " ".intercalate trig)
     | _, _ => (st, "bad-op", "-", "")
   | "updatew" :: ps :: _text :: sx => stepUpdate st ps sx      -- execute_write: same stages, same calls
